@@ -135,6 +135,19 @@ def check_roundtrip(np, layout, spec, version):
     s3 = q2.to_pagexml_string(version=version)
     if strip_time(s2) != strip_time(s3):
         bad.append(('fixpoint', 're-export of the re-imported page differs from its own re-import/re-export'))
+    # importing a document gives what the document says, whatever was done with an earlier import of it: the coordinates of the
+    # first import are shifted in place (as a caller that moves a layout does), then the same string is imported once more
+    for r in q.regions:
+        if r.polygon is not None:
+            r.polygon += 1000
+        for l in r.lines:
+            for a in (l.baseline, l.polygon):
+                if a is not None:
+                    a += 1000
+    q3 = layout.PageLayout()
+    q3.from_pagexml_string(s1)
+    if strip_time(q3.to_pagexml_string(version=version)) != strip_time(s2):
+        bad.append(('import-independent-of-earlier-imports', 'the same document imported again after the coordinates of its first import were changed in place gives another page'))
     return bad
 
 
